@@ -18,6 +18,18 @@ type vNamedPortal struct {
 }
 
 func vSymName() []byte {
+	// LONGNAME > 0: a name may also be LONGNAME concrete bytes followed by one
+	// symbolic byte — two such names differ only beyond any identifier-length
+	// threshold below LONGNAME
+	if long := vParam("LONGNAME", 0); long > 0 && nondetBool() {
+		b := make([]byte, long+1)
+		for i := range b {
+			b[i] = 'n'
+		}
+		b[long] = nondetByte()
+		vAssume(b[long] != 0)
+		return b
+	}
 	b := nondetBytes(vChoose(2))
 	vAssume(vNoNUL(b))
 	return b
@@ -73,6 +85,10 @@ func VerifH07a() {
 		return nil
 	}
 	rebound, reparsed := false, false
+	// portals built from a statement that was closed afterwards: whether they
+	// survive (this library) or are closed with it (PostgreSQL) is not settled
+	// by the property; both are accepted
+	stmtClosed := map[*vStmtInfo]bool{}
 	for i := 0; i < K; i++ {
 		before := len(w.events)
 		// ParseFn stub: one statement with 1 or 0 columns (so Describe tells them apart)
@@ -114,6 +130,8 @@ func VerifH07a() {
 			st := findPortal(n1[i])
 			if st == nil {
 				vAssert("describe-unknown-portal-is-error", got == "E")
+			} else if stmtClosed[st] {
+				vAssert("describe-portal-of-closed-statement", got == vDescOf(st) || got == "E")
 			} else {
 				vAssert("describe-portal-uses-bound-statement", got == vDescOf(st))
 			}
@@ -122,6 +140,8 @@ func VerifH07a() {
 			if st == nil {
 				vAssert("execute-unknown-portal-is-error", got == "E")
 				vAssert("execute-unknown-portal-runs-nothing", ran == nil)
+			} else if stmtClosed[st] {
+				vAssert("execute-portal-of-closed-statement", ran == st || (ran == nil && got == "E"))
 			} else {
 				vAssert("execute-runs-the-statement-bound-at-bind-time", ran == st)
 				if reparsed {
@@ -130,6 +150,9 @@ func VerifH07a() {
 			}
 		case 5:
 			vAssert("close-complete", got == "3")
+			if st := findStmt(n1[i]); st != nil {
+				stmtClosed[st] = true
+			}
 			stmts = append(stmts, vNamedStmt{n1[i], nil})
 			vReach("closed-statement")
 		case 6:
@@ -165,7 +188,7 @@ func VerifH07c() {
 	}
 	exec := func(p []byte) []byte { return vCat(vMsgBytes('E', vCat(vCStr(p), vU32(0))), sync) }
 	input := vCat(parse(s1), bind(p1, s2), parse(s3), exec(p2), bind(p3, s4), exec(p4))
-	w := vNewWorld(input, 64)
+	w := vNewWorld(input, 64+4*vParam("LONGNAME", 0))
 	w.execMenu = 1
 	w.parseMenu = -1
 	type ent struct {
@@ -234,5 +257,86 @@ func VerifH07c() {
 		}
 	} else {
 		vAssert("execute-2-unknown", got == "E" && ranOf(before) == nil)
+	}
+}
+
+// ---------------------------------------------------------------------------
+// H07e — Close affects exactly the named object of the named kind (C07):
+// Parse s1; Bind p1->s1; Close <kind> n (kind and name symbolic, so the
+// solver may close the statement, the portal, a statement that happens to be
+// called like the portal, or something unknown); then Describe statement s2,
+// Describe portal p2 and Execute p3. Closing a portal leaves the statement
+// usable; closing a statement leaves a portal of the same name that was built
+// from ANOTHER statement usable. (Whether closing a statement also closes the
+// portals built from it — PostgreSQL does — is not settled by the property:
+// both behaviours are accepted.)
+// ---------------------------------------------------------------------------
+func VerifH07e() {
+	s1, p1, n, s2, p2, p3 := vSymName(), vSymName(), vSymName(), vSymName(), vSymName(), vSymName()
+	closeStmt := nondetBool()
+	sync := vMsgBytes('S', nil)
+	kind := byte('P')
+	if closeStmt {
+		kind = 'S'
+	}
+	input := vCat(
+		vMsgBytes('P', vCat(vCStr(s1), vCStr([]byte("q")), vU16(0))), sync,
+		vMsgBytes('B', vCat(vCStr(p1), vCStr(s1), vU16(0), vU16(0), vU16(0))), sync,
+		vMsgBytes('C', vCat([]byte{kind}, vCStr(n))), sync,
+		vMsgBytes('D', vCat([]byte{'S'}, vCStr(s2))), sync,
+		vMsgBytes('D', vCat([]byte{'P'}, vCStr(p2))), sync,
+		vMsgBytes('E', vCat(vCStr(p3), vU32(0))), sync,
+	)
+	w := vNewWorld(input, 64+4*vParam("LONGNAME", 0))
+	w.execMenu = 1
+	w.parseMenu = -1
+	step2 := func() string {
+		got, err := w.step()
+		vAssert("connection-stays-up", err == nil)
+		z, errZ := w.step()
+		vAssert("sync-ready", errZ == nil && z == "Z")
+		return got
+	}
+	vAssert("parse", step2() == "1")
+	st := w.lastParse[0]
+	vAssert("bind", step2() == "2")
+	vAssert("close-complete", step2() == "3")
+	stmtAlive := !(closeStmt && vEqBytes(n, s1))
+	portalAlive := !(!closeStmt && vEqBytes(n, p1))
+	portalUnspecified := closeStmt && vEqBytes(n, s1) // its statement was closed
+	got := step2()
+	if vEqBytes(s2, s1) && stmtAlive {
+		vAssert("statement-still-described", got == "t"+vDescOf(st))
+	} else {
+		vAssert("unknown-or-closed-statement-is-error", got == "E")
+	}
+	got = step2()
+	if vEqBytes(p2, p1) && portalUnspecified {
+		vAssert("portal-of-closed-statement-described-or-error", got == vDescOf(st) || got == "E")
+	} else if vEqBytes(p2, p1) && portalAlive {
+		vAssert("portal-still-described", got == vDescOf(st))
+	} else {
+		vAssert("unknown-or-closed-portal-is-error", got == "E")
+	}
+	before := len(w.events)
+	got = step2()
+	ran := false
+	for _, e := range w.events[before:] {
+		if e.kind == 'x' && w.stmts[e.id] == st {
+			ran = true
+		}
+	}
+	if vEqBytes(p3, p1) && portalUnspecified {
+		vAssert("portal-of-closed-statement-runs-or-error", ran || got == "E")
+	} else if vEqBytes(p3, p1) && portalAlive {
+		vAssert("portal-still-executes-its-statement", ran)
+		if closeStmt && vEqBytes(n, p1) {
+			vReach("closing-a-statement-named-like-the-portal")
+		}
+	} else {
+		vAssert("unknown-or-closed-portal-runs-nothing", got == "E" && !ran)
+		if !closeStmt && vEqBytes(n, p1) && vEqBytes(p3, p1) {
+			vReach("closed-portal-unresolvable")
+		}
 	}
 }
